@@ -3,6 +3,7 @@ package lab
 import (
 	stdctx "context"
 	"fmt"
+	"os"
 	"time"
 
 	coercion "github.com/element-of-surprise/coercion"
@@ -144,6 +145,10 @@ type RunOpts struct {
 	KeepOpen bool
 	// OnWriteEnd is called after the n-th durable write.
 	OnWriteEnd func(n int)
+	// FailWrite > 0 makes the FailWrite-th storage update fail (never applied to the store); EvLog receives the event
+	// log line by line (write-fault child runs).
+	FailWrite int
+	EvLog     *os.File
 	// NoWait skips waiting (used by recovery runs where some plans are not expected to be resumed).
 	HardLimit time.Duration
 }
@@ -191,6 +196,7 @@ func envDur(name string, def time.Duration) time.Duration {
 func Run(sc *Scenario, o RunOpts) *RunResult {
 	l := newLab(sc)
 	l.onWriteEnd = o.OnWriteEnd
+	l.failWrite, l.evlog = o.FailWrite, o.EvLog
 	rr := &RunResult{Sc: sc, Lab: l}
 	ctx := context.Background()
 
@@ -305,7 +311,7 @@ func Run(sc *Scenario, o RunOpts) *RunResult {
 			if err != nil {
 				e.Err = " err=" + err.Error()
 			}
-			l.events = append(l.events, e)
+			l.add(e)
 			l.lastProgress = time.Now()
 			l.mu.Unlock()
 			results <- waitRes{pi: pi, plan: p, err: err, idx: idx}
